@@ -955,6 +955,10 @@ def cases(tier, seed):
     out.append(_case("ma_on", "IPPO", s(), num_envs=2, learn_step=4, evo_steps=8, init_steps=[16, 8], gens=2))
     out.append(_hpo(_case("ma_on", "IPPO", s(), num_envs=4, learn_step=4, evo_steps=8, init_steps=[24, 24, 24], pop=3, gens=2)))
     out.append(_case("bandit", "NeuralUCB", s(), env_mode="bandit_f32", init_steps=[12, 0], gens=2))
+    # resumed populations with long histories under tournament + mutation: the early stop still needs len(steps) >= 100
+    out.append(_hpo(_case("off", "DQN", s(), num_envs=2, evo_steps=4, target=-1e9, steps_len=97, fitness_len=96, gens=6, batch=8, pop=3)))
+    out.append(_hpo(_case("on", "PPO", s(), num_envs=2, learn_step=4, evo_steps=4, target=-1e9, steps_len=98, fitness_len=97, gens=5, pop=3)))
+    out.append(_hpo(_case("offline", "CQN", s(), evo_steps=3, steps_len=60, fitness_len=59, gens=3, pop=3), mut="none"))
     out.append(_case("offline", "CQN", s(), target=-1e9, steps_len=97, gens=6, evo_steps=3))
     out.append(_case("on", "PPO", s(), num_envs=2, learn_step=4, evo_steps=4, target=-1e9, steps_len=98, gens=5))
     out.append(_case("ma_off", "MADDPG", s(), num_envs=2, learn_step=2, evo_steps=4, target=-1e9, steps_len=97, gens=6))
@@ -1085,6 +1089,10 @@ def _make_pop(case, num_envs):
         # a resumed population: one entry per earlier generation (the early-stop rule reads len(steps))
         for a in pop:
             a.steps = [int(a.steps[-1])] * int(case["steps_len"])
+    if case.get("fitness_len"):
+        # ... with the fitness history of those generations
+        for i, a in enumerate(pop):
+            a.fitness = [float((j * 7 + i) % 5) for j in range(int(case["fitness_len"]))]
     return pop
 
 
@@ -1410,6 +1418,19 @@ def _final_checks(rec, mon, case, ret, n_pop, given_ids, tmp, kw):
             if k != n_pop:
                 rec.violate("fitness", "fitness_history_row_not_one_entry_per_agent", fn, **mon.detail(row_len=k, pop=n_pop))
                 break
+    # ------------------------------------------------ per-agent histories: one fitness entry per agent and generation, whatever
+    # selection / mutation do in between (a clone inherits its parent's history, and all parents have equally long ones)
+    L0 = int(case.get("fitness_len") or 0)
+    rec.hit("agent_history_checks")
+    for a in pop:
+        try:
+            got = len(a.fitness)
+        except Exception:
+            got = -1
+        if got != L0 + G:
+            rec.violate("fitness", "agent_fitness_history_not_one_entry_per_generation", fn, **mon.detail(
+                agent_index=getattr(a, "index", None), length=got, started_with=L0, generations=G))
+            break
     # ------------------------------------------------ checkpoints
     if case.get("ckpt"):
         _checkpoint_checks(rec, mon, case, pop, n_pop, tmp)
